@@ -341,13 +341,18 @@ string handle(const string &payload) {
       preload.push_back(pl);
       ola::AbstractDevice *parent = r.dev < w.devs.size() ? w.devs[r.dev] : NULL;
       r.in = NULL; r.out = NULL;
+      // port ids as real devices assign them: 0,1,2.. per device and direction, so an input and an
+      // output port of one device share ids
+      unsigned int pid = 0;
+      for (size_t j = 0; j < w.ports.size(); j++)
+        if (w.ports[j].dev == r.dev && w.ports[j].input == r.input) pid++;
       if (r.input) {
-        if (cap == 2) r.in = new VPrioInput(parent, i, &w.adaptor, v);
-        else r.in = new VInput(parent, i, &w.adaptor, v);
+        if (cap == 2) r.in = new VPrioInput(parent, pid, &w.adaptor, v);
+        else r.in = new VInput(parent, pid, &w.adaptor, v);
         if (parent) w.devs[r.dev]->AddPort(r.in);
       } else {
-        if (cap == 2) r.out = new VPrioOutput(parent, i, v);
-        else r.out = new VOutput(parent, i, v);
+        if (cap == 2) r.out = new VPrioOutput(parent, pid, v);
+        else r.out = new VOutput(parent, pid, v);
         if (parent) w.devs[r.dev]->AddPort(r.out);
       }
       w.ports.push_back(r);
